@@ -1,0 +1,16 @@
+//go:build verif
+
+package mastership
+
+import (
+	"github.com/onosproject/onos-config/pkg/store/topo"
+	configurationstore "github.com/onosproject/onos-config/pkg/store/v3/configuration"
+)
+
+func NewReconcilerForVerif(topo topo.Store, configurations configurationstore.Store) *Reconciler {
+	return &Reconciler{topo: topo, configurations: configurations}
+}
+func NewTopoWatcherForVerif(topo topo.Store) *TopoWatcher { return &TopoWatcher{topo: topo} }
+func NewConfigurationStoreWatcherForVerif(configurations configurationstore.Store) *ConfigurationStoreWatcher {
+	return &ConfigurationStoreWatcher{configurations: configurations}
+}
